@@ -1,7 +1,7 @@
 From Coq Require Import List Arith Bool String.
 From Wire Require Import Sets Acyclic Solve Names Front Exec Model Emit Cli CopyAst ModelThms NamesThms Bridge ProcessWF Perm PermModel EmitThms Regroup RegroupModel SolveBound SolveBoundModel.
 From Wire Require Show ShowBound FrontRules InjBody.
-From Wire Require ExecThms Rename Imports.
+From Wire Require Layout Once OnceModel ExecThms Rename Imports.
 Import ListNotations.
 
 (* The property theorems.  This file contains nothing but statements closed by [exact lemma] and the
@@ -478,6 +478,40 @@ Theorem C15_missing_field_is_lost : forall tbl k f, memb f (tbl k) = false ->
 Proof. exact copy_loses. Qed.
 Print Assumptions C15_missing_field_is_lost.
 
+(* ------------------------------------------------------------------ C15 / C01 (layout of the generated file) *)
+(* generateInjectors + copyNonInjectorDecls, as loops with their "first of this file" tests, produce: per file with
+   injectors a header and its injectors in order, then per such file a header and its other declarations in order *)
+Theorem C15_layout_is_sections : forall fs, NoDup (map fst fs) -> Layout.layout fs = Layout.layout_spec fs.
+Proof. exact Layout.layout_is_spec. Qed.
+Print Assumptions C15_layout_is_sections.
+
+(* a declaration is copied iff it is a non-injector, non-import declaration of a file that has an injector *)
+Theorem C15_copied_iff : forall fs id, NoDup (map fst fs) ->
+  (In (Layout.ICopy id) (Layout.layout fs) <->
+   exists x d, In x fs /\ Layout.has_inj x = true /\ In d (snd x) /\ Layout.copyable d = true /\ Layout.d_id d = id).
+Proof. exact Layout.copied_iff. Qed.
+Print Assumptions C15_copied_iff.
+
+(* ... exactly once *)
+Theorem C15_copied_once : forall fs, NoDup (map fst fs) -> NoDup (map Layout.d_id (Layout.all_decls fs)) ->
+  NoDup (List.concat (map Layout.copy_section (filter Layout.has_inj fs))).
+Proof. exact Layout.copied_once. Qed.
+Print Assumptions C15_copied_once.
+
+(* ... in source order *)
+Theorem C15_copied_in_source_order : forall x l1 d1 l2 d2 l3,
+  snd x = l1 ++ d1 :: l2 ++ d2 :: l3 -> Layout.copyable d1 = true -> Layout.copyable d2 = true ->
+  exists a b c, Layout.copy_section x = a ++ Layout.ICopy (Layout.d_id d1) :: b ++ Layout.ICopy (Layout.d_id d2) :: c.
+Proof. exact Layout.copied_in_source_order. Qed.
+Print Assumptions C15_copied_in_source_order.
+
+(* every injector template has an implementation, nothing else has *)
+Theorem C01_injector_emitted_iff : forall fs id, NoDup (map fst fs) ->
+  (In (Layout.IInj id) (Layout.layout fs) <->
+   exists x d, In x fs /\ In d (snd x) /\ Layout.is_inj d = true /\ Layout.d_id d = id).
+Proof. exact Layout.injector_emitted_iff. Qed.
+Print Assumptions C01_injector_emitted_iff.
+
 (* ------------------------------------------------------------------ C16 *)
 (* the collision predicates range over Go maps (imports, value variables); whatever order the map is iterated
    in, the disambiguated name is the same *)
@@ -623,6 +657,33 @@ Theorem C02_wiring_accepted : forall tyorder root args out pm cs,
     val (core_pm pm) out v.
 Proof. exact accepted_wiring. Qed.
 Print Assumptions C02_wiring_accepted.
+
+(* C02, "each provider function is called at most once per injector call": whatever the graph, the stack and the
+   fuel, the planner never emits two calls for one type; a provider function that sits at one key of the map is
+   therefore called at most once (a struct provider sits at two keys, S and *S, and is instantiated once for each
+   form that is needed) *)
+Theorem C02_each_type_built_once : forall pmc given fuel stk s u s' u' i j c c',
+  machine2 pmc given fuel stk s u = Some (s', u') -> calls s = [] ->
+  nth_error (calls s') i = Some c -> nth_error (calls s') j = Some c' -> Solve.c_out c = Solve.c_out c' -> i = j.
+Proof. exact Once.each_type_built_once. Qed.
+Print Assumptions C02_each_type_built_once.
+
+Theorem C02_provider_called_at_most_once : forall pmc given fuel stk s u s' u' i j c c' pid,
+  (forall t t' pv pv' a a', pmc t = Some pv -> conc pv = t -> wh pv = WProv a pid ->
+                            pmc t' = Some pv' -> conc pv' = t' -> wh pv' = WProv a' pid -> t = t') ->
+  machine2 pmc given fuel stk s u = Some (s', u') -> calls s = [] ->
+  nth_error (calls s') i = Some c -> nth_error (calls s') j = Some c' ->
+  Solve.c_kind c = CProv pid -> Solve.c_kind c' = CProv pid -> i = j.
+Proof. exact Once.provider_at_most_once. Qed.
+Print Assumptions C02_provider_called_at_most_once.
+
+(* ... and, for every accepted build set, only what the result transitively depends on is called *)
+Theorem C02_called_only_if_needed : forall tyorder root args out pm s usedk,
+  process_set tyorder args root = inl pm ->
+  machine2 (core_pm pm) (List.length args) (solve_fuel pm) [out] (init_state args) [] = Some (s, usedk) ->
+  forall c, In c (calls s) -> reach (core_pm pm) out (Solve.c_out c).
+Proof. exact OnceModel.accepted_calls_needed. Qed.
+Print Assumptions C02_called_only_if_needed.
 
 Theorem C06_missing_accepted : forall tyorder root args out pm s usedk,
   process_set tyorder args root = inl pm ->
